@@ -7,6 +7,7 @@ INIT Init
 NEXT Next
 INVARIANT Balanced
 INVARIANT OrderIrrelevant
+INVARIANT LastWriterWins
 INVARIANT EmitScn
 CONSTRAINT StateConstraint
 CHECK_DEADLOCK FALSE
